@@ -124,8 +124,8 @@ Theorem C05_cse_preserves :
     (forall op attrs subs subs' ins k r, Forall2 (sub_le T) subs subs' -> interp op attrs subs ins k = Some r -> interp op attrs subs' ins k = Some r) ->
     (forall op attrs subs x, is_identity_op op = true -> interp op attrs subs [x] 1%nat = Some [x]) ->
     (forall op attrs subs ins k, interp op attrs subs (ins ++ [absent]) k = interp op attrs subs ins k) ->
-    forall size_limit m fresh, WF m -> NoOpFunc m -> MainLocal m -> FreshB m fresh ->
-    Pres T absent tensor_val interp m (fst (cse size_limit m fresh)).
+    forall omitted size_limit m fresh, WF m -> NoOpFunc m -> MainLocal m -> FreshB m fresh ->
+    Pres T absent tensor_val interp m (fst (cse omitted size_limit m fresh)).
 Proof. intros. apply cse_pres; assumption. Qed.
 Print Assumptions C05_cse_preserves.
 
@@ -320,7 +320,7 @@ Theorem C05_passes_signature :
   (forall fuel m, noninit_inputs (identity_elim fuel m) = noninit_inputs m)
   /\ (forall keyeq sl order m, noninit_inputs (dedup_inits keyeq sl order m) = noninit_inputs m)
   /\ (forall sc u ops fuel m, noninit_inputs (dce sc u ops fuel m) = noninit_inputs m)
-  /\ (forall sl m fresh, noninit_inputs (fst (cse sl m fresh)) = noninit_inputs m)
+  /\ (forall u sl m fresh, noninit_inputs (fst (cse u sl m fresh)) = noninit_inputs m)
   /\ (forall fuel la sl other m fresh, FreshOK m fresh -> noninit_inputs (fst (lift_constants fuel la sl other m fresh)) = noninit_inputs m)
   /\ (forall scopes m fresh, WF m -> NoOpFunc m -> FreshAll m fresh -> noninit_inputs (fst (output_fix scopes m fresh)) = noninit_inputs m)
   /\ (forall order m, NoDup (map fst (m_subs m)) -> noninit_inputs (lift_subgraph_inits order m) = noninit_inputs m)
